@@ -14,7 +14,7 @@ Definition coll_n_ok (s : rst) (p : rcpc) : Prop := match p with RCGot n | RCExp
 (* what the worker's program counter says about the collect thread and the tickets *)
 Definition rwp_inv (s : rst) : Prop :=
   match r_wp s with
-  | RWIdle _ => r_coll s = None
+  | RWIdle _ | RWEnd => r_coll s = None
   | RWTicket k => r_coll s = None /\ k <= r_pending s
   | RWWait k c | RWTimedOut k c | RWJoin k c =>
       k <= r_pending s /\ exists p, r_coll s = Some (c, p) /\ c <> 0 /\ coll_n_ok s p /\
